@@ -297,3 +297,35 @@ func RemoveAll(path string) error {
 	}
 	return Remove(path)
 }
+
+// Stat is os.Stat.
+func Stat(name string) (fs.FileInfo, error) {
+	if err := fsStep("stat", name); err != nil {
+		return nil, err
+	}
+	if dirs[name] {
+		return memInfo{name: name, dir: true}, nil
+	}
+	if f, ok := files[name]; ok {
+		return memInfo{name: name, size: int64(len(f.Data))}, nil
+	}
+	return nil, notExist("stat", name)
+}
+
+// MkdirTemp is os.MkdirTemp: a new directory in dir whose name is pattern with "*" replaced by a counter.
+func MkdirTemp(dir, pattern string) (string, error) {
+	if err := fsStep("mkdirtemp", dir); err != nil {
+		return "", err
+	}
+	if !dirs[dir] {
+		return "", notExist("mkdirtemp", dir)
+	}
+	tmpCounter++
+	name := dir + "/" + strings.TrimSuffix(pattern, "*") + strconv.Itoa(tmpCounter)
+	for Exists(name) { // os.MkdirTemp retries until the name is new
+		tmpCounter++
+		name = dir + "/" + strings.TrimSuffix(pattern, "*") + strconv.Itoa(tmpCounter)
+	}
+	dirs[name] = true
+	return name, nil
+}
